@@ -342,6 +342,50 @@ pub fn build_tcp(
     p
 }
 
+/// An IP packet carrying an ICMPv4 / ICMPv6 echo request (the interface answers it by itself when
+/// `auto-icmp-echo-reply` is enabled).
+pub fn build_echo_request(src: &IpAddress, dst: &IpAddress, ident: u16, seq_no: u16, data_len: usize) -> Vec<u8> {
+    let mut m = vec![0u8; 8 + data_len];
+    m[4..6].copy_from_slice(&ident.to_be_bytes());
+    m[6..8].copy_from_slice(&seq_no.to_be_bytes());
+    for (i, b) in m[8..].iter_mut().enumerate() {
+        *b = i as u8;
+    }
+    let mut p;
+    match (src, dst) {
+        (IpAddress::Ipv4(s), IpAddress::Ipv4(d)) => {
+            m[0] = 8;
+            let c = !csum_fold(csum_add(0, &m));
+            m[2..4].copy_from_slice(&c.to_be_bytes());
+            p = vec![0u8; 20];
+            p[0] = 0x45;
+            p[2..4].copy_from_slice(&((20 + m.len()) as u16).to_be_bytes());
+            p[6] = 0x40;
+            p[8] = 64;
+            p[9] = 1;
+            p[12..16].copy_from_slice(&s.octets());
+            p[16..20].copy_from_slice(&d.octets());
+            let c = !csum_fold(csum_add(0, &p));
+            p[10..12].copy_from_slice(&c.to_be_bytes());
+        }
+        (IpAddress::Ipv6(s), IpAddress::Ipv6(d)) => {
+            m[0] = 128;
+            let c = !csum_fold(csum_add(pseudo(src, dst, 58, m.len()), &m));
+            m[2..4].copy_from_slice(&c.to_be_bytes());
+            p = vec![0u8; 40];
+            p[0] = 0x60;
+            p[4..6].copy_from_slice(&(m.len() as u16).to_be_bytes());
+            p[6] = 58;
+            p[7] = 64;
+            p[8..24].copy_from_slice(&s.octets());
+            p[24..40].copy_from_slice(&d.octets());
+        }
+        _ => panic!("mixed address families"),
+    }
+    p.extend_from_slice(&m);
+    p
+}
+
 /// TCP options builder (padded with NOPs to a multiple of 4).
 pub fn tcp_opts(mss: Option<u16>, ws: Option<u8>, sack_perm: bool, ts: Option<(u32, u32)>) -> Vec<u8> {
     let mut o = vec![];
@@ -1037,6 +1081,14 @@ impl TxOracle {
         if s.win == 0 {
             self.zero_window_adv = true;
         }
+        if len == 0 && !s.has(F_FIN) {
+            // a segment that occupies no sequence space carries SND.NXT (or, rewound, something
+            // below it): never a sequence number this connection has not reached yet
+            let top = self.fin_off.map_or(self.snd_max, |f| f + 1);
+            if off > top || off < -1 {
+                out.fail("c05-seq-beyond-sent", format!("{} bare ACK with sequence offset {} but this connection has only sent up to offset {} (iss {})", who, off, top, iss));
+            }
+        }
         if len > 0 {
             // keep-alive: one garbage byte at an already acknowledged sequence number
             let is_keepalive = cx.keep_alive && len == 1 && off < cx.una.max(0) && off >= -1;
@@ -1168,6 +1220,12 @@ pub struct E2eCfg {
     pub probe: bool,
     /// the application may call close() while the socket is still in SYN-RECEIVED
     pub ecl: bool,
+    /// device back-pressure: percentage of polls in which the device hands out only 0, 1 or 2
+    /// transmit tokens (replenished before the next poll); 0 = the device always accepts frames
+    pub bp: u64,
+    /// competing traffic: percentage of delivered frames that are accompanied by an ICMP echo
+    /// request, which the interface answers by itself (and which uses up transmit tokens)
+    pub ping: u64,
 }
 
 impl E2eCfg {
@@ -1189,6 +1247,8 @@ impl E2eCfg {
         put("simopen", (self.simopen as u8).to_string());
         put("probe", (self.probe as u8).to_string());
         put("ecl", (self.ecl as u8).to_string());
+        put("bp", self.bp.to_string());
+        put("ping", self.ping.to_string());
         for (i, e) in self.ep.iter().enumerate() {
             let s = if i == 0 { "a" } else { "b" };
             let mut put = |k: &str, v: String| cfg.push((format!("{}{}", k, s), v));
@@ -1269,6 +1329,8 @@ impl E2eCfg {
             simopen: gu("simopen") != 0,
             probe: gu("probe") != 0,
             ecl: c.get_i("ecl", 0) != 0,
+            bp: c.get_i("bp", 0) as u64,
+            ping: c.get_i("ping", 0) as u64,
         }
     }
 }
@@ -1431,7 +1493,7 @@ pub fn gen_e2e(rng: &mut Rng, id: String, tier: &str) -> E2eCfg {
         5 => (0, 0, 0, rng.range(20, 300) as u64),
         _ => (rng.range(0, 200) as u64, rng.range(0, 100) as u64, rng.range(0, 250) as u64, rng.range(0, 40) as u64),
     };
-    E2eCfg {
+    let mut c = E2eCfg {
         id,
         seed: rng.next(),
         eth,
@@ -1448,7 +1510,15 @@ pub fn gen_e2e(rng: &mut Rng, id: String, tier: &str) -> E2eCfg {
         simopen: rng.chance(1, 16),
         probe: rng.chance(1, 3),
         ecl: rng.chance(1, 12),
+        bp: 0,
+        ping: 0,
+    };
+    // device back-pressure and competing traffic in a third of the schedules
+    if rng.chance(1, 3) {
+        c.bp = *rng.pick(&[3u64, 10, 30, 60]);
+        c.ping = *rng.pick(&[0u64, 5, 25, 60]);
     }
+    c
 }
 
 // ---------------------------------------------------------------------------------------------
@@ -1634,6 +1704,9 @@ pub struct E2e {
     pub out: RunOut,
     pub tracing: bool,
     probe_rng: Rng,
+    bp_rng: Rng,
+    /// per endpoint: the previous poll at `.1` was a back-pressured one (the next is not)
+    bp_last: [(bool, i64); 2],
     medium: Medium,
     /// the run cannot continue (poll livelock)
     dead: bool,
@@ -1670,6 +1743,8 @@ impl E2e {
             out: RunOut::default(),
             tracing,
             probe_rng: Rng::new(cfg.seed ^ 0x9E0B),
+            bp_rng: Rng::new(cfg.seed ^ 0xB9E5),
+            bp_last: [(false, -1); 2],
             medium: if cfg.eth { Medium::Ethernet } else { Medium::Ip },
             dead: false,
         }
@@ -1678,6 +1753,21 @@ impl E2e {
     fn tr(&mut self, s: String) {
         if self.tracing {
             println!("{:>10} {}", self.now, s);
+        }
+    }
+
+    /// an ICMP echo request from the peer's address for endpoint `to` (competing traffic)
+    fn echo_frame(&mut self, to: usize) -> Vec<u8> {
+        let (src, dst) = (self.eps[1 - to].addr, self.eps[to].addr);
+        let n = self.bp_rng.below(48) as usize;
+        let ip = build_echo_request(&src, &dst, 0x7e57, self.link.ord as u16, n);
+        if self.cfg.eth {
+            let mut f = vec![2, 0, 0, 0, 0, to as u8 + 1, 2, 0, 0, 0, 0, (1 - to) as u8 + 1];
+            f.extend_from_slice(if self.cfg.v6 { &[0x86, 0xdd] } else { &[0x08, 0x00] });
+            f.extend_from_slice(&ip);
+            f
+        } else {
+            ip
         }
     }
 
@@ -1757,6 +1847,14 @@ impl E2e {
         let (rx_n, frames, rxfree_before, rxfree_after);
         let livelock;
         let mut tw_lost = None;
+        // device back-pressure: this poll gets only a few transmit tokens (never two such polls of
+        // the same interface in a row at one instant: the driver frees the buffers in between)
+        let mut limit: Option<usize> = None;
+        if self.cfg.bp > 0 && !probing && !(self.bp_last[i].0 && self.bp_last[i].1 == now) && self.bp_rng.below(100) < self.cfg.bp {
+            limit = Some(self.bp_rng.below(3) as usize);
+        }
+        self.bp_last[i] = (limit.is_some(), now);
+        let refused;
         {
             let e = &mut self.eps[i];
             let st0 = e.sock_ref().state();
@@ -1765,15 +1863,17 @@ impl E2e {
             let n0 = e.dev.n_rx;
             // what the socket learns from the segments ingested by this poll (ingress precedes egress)
             let pend = std::mem::take(&mut e.pending);
-            let single = pend.len() == 1 && e.dev.rx.len() == 1;
+            // (under back-pressure the device may leave frames queued: nothing is certain then)
+            let single = pend.len() == 1 && e.dev.rx.len() == 1 && limit.is_none();
             for (sg, cx) in &pend {
                 e.txo.on_delivered(sg, if single { Some(cx) } else { None });
             }
             // watchdog: a poll that keeps transmitting would never return on a real device
             // (every ingested frame may be answered at once, so the budget grows with the input)
-            e.dev.tx_budget = Some(POLL_TX_BUDGET + 2 * e.dev.rx.len());
+            e.dev.tx_budget = Some(limit.unwrap_or(POLL_TX_BUDGET + 2 * e.dev.rx.len()));
             e.iface.poll(Instant::from_micros(now), &mut e.dev, &mut e.sockets);
-            livelock = e.dev.tx_budget == Some(0);
+            refused = limit.is_some() && e.dev.tx_budget == Some(0);
+            livelock = limit.is_none() && e.dev.tx_budget == Some(0);
             e.dev.tx_budget = None;
             rx_n = e.dev.n_rx - n0;
             frames = e.dev.drain_tx();
@@ -1781,7 +1881,8 @@ impl E2e {
             if st0 == tcp::State::TimeWait && e.sock_ref().state() == tcp::State::Closed && q0 > 0 && e.sock_ref().recv_queue() == 0 {
                 tw_lost = Some(q0);
             }
-            e.got_frame = false;
+            // frames the device did not hand over stay queued: the interface is polled again
+            e.got_frame = !e.dev.rx.is_empty();
             e.refresh_deadline(now);
             if e.sock_ref().state() != tcp::State::Closed && e.sock_ref().state() != tcp::State::Listen {
                 e.was_active = true;
@@ -1791,6 +1892,10 @@ impl E2e {
             }
         }
         self.out.bump("polls", 1);
+        if limit.is_some() {
+            self.out.bump("polls_backpressured", 1);
+            self.out.bump("polls_tx_refused", refused as u64);
+        }
         if livelock {
             let d = format!("case {} t={}us {}: one Interface::poll transmitted {} frames and was still going (it never returns on a device that always accepts frames); {}", id, now, self.eps[i].name, POLL_TX_BUDGET, self.eps[i].describe());
             self.out.fail("c03-poll-never-returns", d);
@@ -1801,13 +1906,16 @@ impl E2e {
         }
         if self.tracing {
             let d = self.eps[i].describe();
-            self.tr(format!("poll {}{} rx={} tx={} -> {}", self.eps[i].name, if probing { " (early probe)" } else { "" }, rx_n, frames.len(), d));
+            let bp = limit.map(|l| format!(" (device: {} tx token(s){})", l, if refused { ", exhausted" } else { "" })).unwrap_or_default();
+            self.tr(format!("poll {}{}{} rx={} tx={} -> {}", self.eps[i].name, if probing { " (early probe)" } else { "" }, bp, rx_n, frames.len(), d));
         }
         if probing && !frames.is_empty() {
             self.out.fail("c13-early-poll-transmits", format!("case {} t={}us {}: early poll before the deadline transmitted {} frame(s)", id, now, self.eps[i].name, frames.len()));
         }
         // C13 non-spinning clause
-        if let Err(m) = spin_check(Instant::from_micros(now), rx_n, frames.len(), self.eps[i].deadline.map(Instant::from_micros)) {
+        // (the clause is about a device that accepts frames: not when the tokens ran out)
+        let spin = if refused { Ok(()) } else { spin_check(Instant::from_micros(now), rx_n, frames.len(), self.eps[i].deadline.map(Instant::from_micros)) };
+        if let Err(m) = spin {
             let e = &mut self.eps[i];
             if e.last_poll_t == now {
                 e.idle_polls_here += 1;
@@ -2124,10 +2232,22 @@ impl E2e {
                     let n = self.eps[to].name;
                     self.tr(format!("deliver to {} frame len={} (not a valid TCP segment)", n, f.frame.len()));
                 }
+                let ping = if self.cfg.ping > 0 && self.bp_rng.below(100) < self.cfg.ping { Some(self.bp_rng.chance(1, 2)) } else { None };
+                let echo = ping.map(|_| self.echo_frame(to));
                 let e = &mut self.eps[to];
+                if ping == Some(true) {
+                    e.dev.rx.push_back(echo.clone().unwrap());
+                }
                 e.dev.rx.push_back(f.frame);
+                if ping == Some(false) {
+                    e.dev.rx.push_back(echo.unwrap());
+                }
                 e.got_frame = true;
                 e.probe_at = None;
+                if ping.is_some() {
+                    self.out.bump("echo_requests", 1);
+                    self.tr(format!("deliver to {} an ICMP echo request ({} the frame above)", if to == 0 { 'A' } else { 'B' }, if ping == Some(true) { "before" } else { "after" }));
+                }
             }
             // early probes
             for i in 0..2 {
@@ -2289,6 +2409,19 @@ pub struct RxSim {
     pub ingress_only: bool,
     /// `device-busy on`: the device hands out no transmit token (back-pressure)
     pub device_busy: bool,
+    /// `budget=<n>` on an op: the next poll gets only n transmit tokens
+    pub next_budget: Option<usize>,
+    /// `ping=1` on a seg op: an ICMP echo request is queued right behind the segment
+    pub next_ping: bool,
+    /// back-pressure ops are generated (case key bp=1)
+    pub gen_bp: bool,
+    /// one entry per frame queued in `dev.rx`: the peer segment (offset, length, FIN) it carries, if
+    /// any.  The receiver oracle's books are written when the frame is really ingested (under
+    /// back-pressure that can be a later poll than the one following the transmission).
+    rxq_meta: std::collections::VecDeque<Option<(i64, i64, bool)>>,
+    /// an explicit script acknowledged something the socket had not sent yet (no consistent peer
+    /// does; the socket accepts it): the "FIN acknowledged but never sent" check is off then
+    peer_acked_unsent: bool,
     last_poll_t: i64,
     idle_here: u32,
 }
@@ -2358,6 +2491,7 @@ pub fn gen_rx(rng: &mut Rng, id: String, tier: &str) -> Case {
         ("ackd", if rng.chance(1, 2) { "10" } else { "0" }.to_string()),
         ("ka", if rng.chance(1, 8) { "500" } else { "0" }.to_string()),
         ("nops", nops.to_string()),
+        ("bp", (rng.chance(1, 3) as u8).to_string()),
     ]
     .iter()
     .map(|(k, v)| (k.to_string(), v.clone()))
@@ -2446,6 +2580,11 @@ impl RxSim {
             txo: TxOracle::new(0),
             ingress_only: false,
             device_busy: false,
+            next_budget: None,
+            next_ping: false,
+            gen_bp: gi("bp", 0) != 0,
+            rxq_meta: Default::default(),
+            peer_acked_unsent: false,
             last_poll_t: -1,
             idle_here: 0,
         }
@@ -2485,15 +2624,20 @@ impl RxSim {
         let now = self.now;
         let before = self.rxcap - self.sock_ref().recv_queue();
         let n0 = self.dev.n_rx;
-        self.dev.tx_budget = Some(if self.device_busy { 0 } else { POLL_TX_BUDGET + 2 * self.dev.rx.len() });
+        let limit = if self.device_busy { Some(0) } else { self.next_budget.take() };
+        self.dev.tx_budget = Some(limit.unwrap_or(POLL_TX_BUDGET + 2 * self.dev.rx.len()));
         let st0 = self.sock_ref().state();
         let q0 = self.sock_ref().recv_queue();
+        let edge0 = self.edge_max.unwrap_or(0);
         self.iface.poll(Instant::from_micros(now), &mut self.dev, &mut self.sockets);
+        let ingested = self.dev.n_rx - n0;
+        self.account_ingested(ingested, edge0);
         if st0 == tcp::State::TimeWait && self.sock_ref().state() == tcp::State::Closed && q0 > 0 && self.sock_ref().recv_queue() == 0 {
             let d = format!("case {} t={}us: TIME-WAIT expired and the socket discarded {} received bytes the application had not read yet (recv can never return them or Finished)", self.id, now, q0);
             self.out.fail("c02-timewait-discards-unread", d);
         }
-        let livelock = self.dev.tx_budget == Some(0) && !self.device_busy;
+        let livelock = self.dev.tx_budget == Some(0) && limit.is_none();
+        let refused = self.dev.tx_budget == Some(0) && limit.is_some();
         self.dev.tx_budget = None;
         let rx_n = self.dev.n_rx - n0;
         let mut frames = self.dev.drain_tx();
@@ -2509,7 +2653,8 @@ impl RxSim {
             let d = self.describe();
             self.tr(format!("poll rx={} tx={} -> {}", rx_n, frames.len(), d));
         }
-        if let Err(m) = spin_check(Instant::from_micros(now), rx_n, frames.len(), self.deadline.map(Instant::from_micros)) {
+        let spin = if refused { Ok(()) } else { spin_check(Instant::from_micros(now), rx_n, frames.len(), self.deadline.map(Instant::from_micros)) };
+        if let Err(m) = spin {
             if self.last_poll_t == now {
                 self.idle_here += 1;
             } else {
@@ -2541,9 +2686,30 @@ impl RxSim {
             self.on_socket_segment(&s);
         }
         self.deadline_invariant("after poll");
-        if matches!(self.sock_ref().state(), tcp::State::FinWait2 | tcp::State::TimeWait) && self.txo.fin_off.is_none() {
+        if matches!(self.sock_ref().state(), tcp::State::FinWait2 | tcp::State::TimeWait) && self.txo.fin_off.is_none() && !self.peer_acked_unsent {
             let d = format!("case {} t={}us: state {} (own FIN acknowledged) although the socket never emitted a FIN; {}", self.id, now, state_name(self.sock_ref().state()), self.describe());
             self.out.fail("c02-fin-acked-never-sent", d);
+        }
+    }
+
+    /// the interface took `n` frames from the device: write the receiver oracle's books for the peer
+    /// segments among them, with the right edge the socket had advertised before that poll
+    fn account_ingested(&mut self, n: usize, edge: i64) {
+        for _ in 0..n {
+            let Some(m) = self.rxq_meta.pop_front() else { break };
+            let Some((so, len, fin)) = m else { continue };
+            for o in so..so + len {
+                self.sent[o as usize] = true;
+                if o < edge {
+                    self.inwin[o as usize] = true;
+                }
+            }
+            if fin {
+                self.fin_sent = true;
+                if so + len <= edge {
+                    self.fin_inwin = true;
+                }
+            }
         }
     }
 
@@ -2619,24 +2785,24 @@ impl RxSim {
         let opts = if syn { tcp_opts(self.pmss, self.pws, self.psack, ts) } else { tcp_opts(None, None, false, ts) };
         let flags = if syn { F_SYN } else { 0 } | if fin { F_FIN } else { 0 } | if psh { F_PSH } else { 0 };
         let pkt = build_tcp(&self.peer_addr, &self.sock_addr, self.peer_port, self.sock_port, seq, ack, flags, win, &opts, &payload);
-        // oracle bookkeeping: which bytes arrive inside the window advertised right now
+        // frames a back-pressured device left queued are ingested first, so that this segment meets
+        // the window the socket advertises now (at most one peer segment per poll)
+        if !self.dev.rx.is_empty() {
+            let b = self.next_budget.take();
+            while !self.dev.rx.is_empty() && !self.device_busy {
+                self.poll();
+            }
+            self.next_budget = b;
+        }
         if syn {
             self.peer_syn_sent = true;
-        } else {
-            let edge = self.edge_max.unwrap_or(0);
-            for o in so..so + len {
-                self.sent[o as usize] = true;
-                if o < edge {
-                    self.inwin[o as usize] = true;
-                }
-            }
-            if fin {
-                self.fin_sent = true;
-                if so + len <= edge {
-                    self.fin_inwin = true;
-                }
+        } else if let Some(a) = ack_off {
+            if a > self.txo.fin_off.map_or(self.txo.snd_max, |f| f + 1) {
+                self.peer_acked_unsent = true;
             }
         }
+        self.rxq_meta.push_back(if syn { None } else { Some((so, len, fin)) });
+        let uncertain = self.next_budget.is_some() || self.device_busy;
         let seg = parse_tcp(Medium::Ip, &pkt).expect("own segment parses");
         let cx = {
             let s = self.sock_ref();
@@ -2644,15 +2810,25 @@ impl RxSim {
             let fin = matches!(st, tcp::State::CloseWait | tcp::State::LastAck | tcp::State::Closing | tcp::State::TimeWait) as i64;
             RxCtx { una: self.written as i64 - s.send_queue() as i64, sendq: s.send_queue() as i64, rcv_nxt: self.read as i64 + s.recv_queue() as i64 + fin, state: st }
         };
-        self.txo.on_delivered(&seg, Some(&cx));
+        self.txo.on_delivered(&seg, if uncertain { None } else { Some(&cx) });
         if self.tracing {
             let b = seg_brief(&seg, Some(self.irs), self.txo.iss);
             self.tr(format!("peer tx {}", b));
         }
         self.dev.rx.push_back(pkt);
+        if std::mem::take(&mut self.next_ping) {
+            // competing traffic right behind the segment: the interface answers it by itself
+            let e = build_echo_request(&self.peer_addr, &self.sock_addr, 0x7e57, self.ts_val as u16, 8);
+            self.dev.rx.push_back(e);
+            self.rxq_meta.push_back(None);
+            self.tr("peer tx ICMP echo request".into());
+        }
         if self.ingress_only {
             // the application drives ingress and egress separately (poll_ingress_single / poll_egress)
+            let (n0, edge0) = (self.dev.n_rx, self.edge_max.unwrap_or(0));
             self.iface.poll_ingress_single(Instant::from_micros(self.now), &mut self.dev, &mut self.sockets);
+            let n = self.dev.n_rx - n0;
+            self.account_ingested(n, edge0);
             let frames = self.dev.drain_tx();
             for f in frames {
                 if let Some(s) = parse_tcp(Medium::Ip, &f) {
@@ -2682,6 +2858,7 @@ impl RxSim {
             self.tr(format!("peer tx RAW seq={}(off {}) len={} fin={}", seq, so, len, fin));
         }
         self.dev.rx.push_back(pkt);
+        self.rxq_meta.push_back(None);
         self.poll();
     }
 
@@ -2740,6 +2917,10 @@ impl RxSim {
         self.out.ops.push(op.to_string());
         let t: Vec<&str> = op.split_whitespace().collect();
         let kv = |k: &str| -> Option<&str> { t.iter().find_map(|x| x.strip_prefix(k).and_then(|r| r.strip_prefix('='))) };
+        if let Some(b) = kv("budget") {
+            self.next_budget = Some(b.parse().expect("budget"));
+        }
+        self.next_ping = kv("ping") == Some("1");
         match t[0] {
             "open" => {
                 if self.listen {
@@ -2761,6 +2942,10 @@ impl RxSim {
                 // SYN (listen role) or SYN-ACK (connect role; `bare=1`: a SYN without ACK, i.e. a
                 // simultaneous open)
                 let ack = if (self.listen || kv("bare") == Some("1")) && kv("ack") != Some("1") { None } else { Some(0) };
+                // `mss=-|<n>` overrides the case's peer MSS for this SYN (a different peer after a reset)
+                if let Some(m) = kv("mss") {
+                    self.pmss = if m == "-" { None } else { Some(m.parse().expect("mss")) };
+                }
                 self.peer_send(0, 0, false, false, true, ack, win);
             }
             "seg" => {
@@ -2777,6 +2962,25 @@ impl RxSim {
                 len = len.clamp(0, self.f_len - so);
                 let fin = fl.contains('F') && so + len == self.f_len;
                 self.peer_send(so, len, fin, fl.contains('P'), false, ao, win);
+            }
+            "rst" => {
+                // the peer resets the connection (sequence number = its SND.NXT as the socket knows it)
+                let seq = self.irs.wrapping_add(1);
+                let pkt = build_tcp(&self.peer_addr, &self.sock_addr, self.peer_port, self.sock_port, seq, None, F_RST, 0, &[], &[]);
+                self.tr(format!("peer tx [R] seq={}", seq));
+                self.dev.rx.push_back(pkt);
+                self.rxq_meta.push_back(None);
+                self.poll();
+                if self.sock_ref().state() == tcp::State::Listen {
+                    // next SYN starts a new connection: new peer ISN, fresh books
+                    self.peer_syn_sent = false;
+                    self.txo.new_incarnation();
+                    self.edge_max = None;
+                    self.last_ack = 0;
+                    if let Some(v) = kv("irs") {
+                        self.irs = v.parse().expect("irs");
+                    }
+                }
             }
             "rawseg" => {
                 // a segment anywhere in the sequence space (not clamped to the peer's stream, not
@@ -2884,7 +3088,9 @@ impl RxSim {
                 4 => 65535,
                 _ => rng.range(500, 30000) as u16,
             };
-            format!("seg so={} len={} fl={} ao={} win={}", so, len, fl, ao, win)
+            // device back-pressure: competing traffic behind the segment and one or two tx tokens
+            let bp = if self.gen_bp && rng.chance(1, 5) { format!(" ping=1 budget={}", rng.range(1, 2)) } else { String::new() };
+            format!("seg so={} len={} fl={} ao={} win={}{}", so, len, fl, ao, win, bp)
         } else if k < 78 {
             let n = match rng.below(4) {
                 0 => rng.range(1, 8),
@@ -2896,7 +3102,8 @@ impl RxSim {
             if rng.chance(1, 2) {
                 "pollat".into()
             } else {
-                format!("poll {}", *rng.pick(&[0i64, 1, 1000, 10_000, 10_001, 100_000, 1_000_000, 3_000_000, 11_000_000]))
+                let bp = if self.gen_bp && rng.chance(1, 5) { format!(" budget={}", rng.range(0, 1)) } else { String::new() };
+                format!("poll {}{}", *rng.pick(&[0i64, 1, 1000, 10_000, 10_001, 100_000, 1_000_000, 3_000_000, 11_000_000]), bp)
             }
         } else if k < 97 {
             if self.written < self.nsend && matches!(st, tcp::State::Established | tcp::State::CloseWait) {
